@@ -169,6 +169,9 @@ def nonsympy_fields(cls) -> list[str]:
     return [f.name for f in dataclasses.fields(cls) if not f.metadata.get("sympify")]
 
 
+SYMBOLIC_POOL_VALUES = False
+"""Set by a check (before drawing): index pools may contain the symbols y, z besides rationals."""
+
 INCLUDE_CLOSURES = False
 """Set by a check (before drawing) to add phase-space factors that are *closures*: distinct
 functions from one factory, i.e. equal ``__module__`` and ``__qualname__`` (not picklable, so only
@@ -454,13 +457,31 @@ def _py_index(item):
     return item
 
 
+def pool_value(v: str):
+    """Value of an index pool: a rational, or ``"$name"`` for a scalar symbol (PoolSum sympifies whatever it is
+    given, and its ``free_symbols`` count symbols inside the pools)."""
+    import sympy as sp  # noqa: PLC0415
+
+    return _symbol(v[1:]) if v.startswith("$") else sp.Rational(v)
+
+
+def rename_pool_symbols(extra: dict, old: str | None, new: str) -> dict:
+    """`extra` of a PoolSum node with the pool symbol `old` replaced by `new`."""
+    if old is None or "indices" not in extra or not isinstance(extra["indices"], list):
+        return extra
+    try:
+        return {**extra, "indices": [[n, [f"${new}" if v == f"${old}" else v for v in vals]] for n, vals in extra["indices"]]}
+    except (TypeError, ValueError):
+        return extra
+
+
 def build_instance(name: str, args: list, extra: dict, call: Callable = _direct, *, keywords: bool = False):
     cls = discover()[name]
     label = f"{name}()"
     if name == "PoolSum" and "indices" in extra:
         import sympy as sp  # noqa: PLC0415
 
-        indices = [(_index(n), tuple(sp.Rational(v) for v in vals)) for n, vals in extra["indices"]]
+        indices = [(_index(n), tuple(pool_value(v) for v in vals)) for n, vals in extra["indices"]]
         return call(label, cls, args[0], *indices)
     if name in {"UnevaluatableIntegral", "_SymbolicSum"} and "var" in extra:
         var = _index(extra["var"])
@@ -515,8 +536,9 @@ def leaves(tree) -> dict[str, list[str]]:
         if node[0] in out:
             out[node[0]].add(node[1])
         if node[0] == "cls":
-            for n, _vals in node[3].get("indices", []) if node[1] == "PoolSum" else []:
+            for n, vals in node[3].get("indices", []) if node[1] == "PoolSum" else []:
                 out["idx"].add(n)
+                out["sym"].update(v[1:] for v in vals if isinstance(v, str) and v.startswith("$"))
             if "var" in node[3]:
                 out["idx"].add(node[3]["var"])
     return {k: sorted(v) for k, v in out.items()}
@@ -776,9 +798,14 @@ def of_kind(kind: str, depth: int, leaf_weight: int = 2):
         p4 = of_kind("p4", max(depth - 2, 0)) if depth >= 2 else arr  # noqa: PLR2004
         return st.one_of(b_sym, b_sym, p4.map(beta_of))
     if kind == "v3":
-        if depth <= 0:
-            return arr.map(lambda a: ["cls", "ThreeMomentum", [a], {}])
-        return nested
+        base = arr.map(lambda a: ["cls", "ThreeMomentum", [a], {}]) if depth <= 0 or nested is None else nested
+        # compound vector arguments (a sum of two vectors, a scaled vector): printers that paste the code of
+        # an argument into a larger string have to parenthesise it
+        return st.one_of(
+            base, base, base,
+            st.tuples(base, arr).map(lambda t: ["add", t[0], ["cls", "ThreeMomentum", [t[1]], {}]]),
+            base.map(lambda t: ["mul", ["num", "2"], t]),
+        )
     if kind == "v3sq":
         return of_kind("v3", depth).map(lambda t: ["pow", t, 2])
     if kind == "n":
@@ -836,7 +863,8 @@ def of_kind(kind: str, depth: int, leaf_weight: int = 2):
 def _pool():
     st = _st()
     # (no 0: a vanishing sum as `s` or a mass makes everything downstream singular; C18 covers pools)
-    return st.lists(st.sampled_from(["1", "-1", "2", "1/2", "-1/2", "3"]), min_size=1, max_size=3)
+    value = st.sampled_from(["1", "-1", "2", "1/2", "-1/2", "3"] * 3 + (["$y", "$z"] if SYMBOLIC_POOL_VALUES else []))
+    return st.lists(value, min_size=1, max_size=3)
 
 
 def beta_of(p4_tree):
